@@ -1,7 +1,7 @@
 (* C10 -- the statements of Properties/C10.v, proved from the lemmas of C10_list / C10_slice / C10_stack. *)
 From Coq Require Import Reals ZArith List Lia Bool.
 From PR Require Import Base.Num Base.RNum Base.ZX Base.Slice Model.Grid Model.SliceArea Model.Stack Gen.GenC10
-     Model.LonlatPaths Proofs.C10_list Proofs.C10_slice Proofs.C10_stack Proofs.C10_gen Proofs.C10_paths.
+     Model.LonlatPaths Model.StackDask Proofs.C10_list Proofs.C10_slice Proofs.C10_stack Proofs.C10_gen Proofs.C10_paths Proofs.C10_stackdask.
 Import ListNotations.
 Open Scope Z_scope.
 
@@ -186,3 +186,9 @@ Qed.
 Lemma main_swath_append_history : forall (A : Type) (s : swath A) (ts : list (swath A)),
   swath_append_all s ts = (fst s ++ concat (map fst ts), snd s ++ concat (map snd ts)).
 Proof. intros. apply swath_append_all_spec. Qed.
+
+Lemma main_stacked_dask_chunks_independent : forall (T C : Type) (OP : ops T) (inv : T -> T -> C) rs cs
+    (defs : list (garea T)) (chs : list (list Z * list Z)),
+  Forall2 tiling defs chs ->
+  stacked_rows_dask OP inv rs cs 0 defs chs = stacked_rows OP inv rs cs 0 defs.
+Proof. intros. apply stacked_rows_dask_eq. assumption. Qed.
